@@ -684,6 +684,7 @@ func (fr *Frame) assertAtCall(calleeName string, args []Val, sig *types.Signatur
 		if want > 0 && want != fr.sourceOrdinal(sel) {
 			continue
 		}
+		fr.matched[c] = true
 		env := fr.envAt(fr.block, fr.idx, fr.cur.st, nil)
 		for i, a := range args {
 			env.names[fmt.Sprintf("arg%d", i)] = a
@@ -780,6 +781,64 @@ func (fr *Frame) callCommon(cc *ssa.CallCommon, args []Val, fv Val, res ssa.Valu
 	name := e.fnName(callee)
 	fr.assertAtCall(name, args, callee.Signature)
 	fr.effectCheckCallee(callee, name)
+	defer func() { fr.assumeAtCall(name) }()
+	lockInvAfter := func() {}
+	if (name == "(*sync.Mutex).Lock" || name == "(*sync.Mutex).Unlock" || name == "(*sync.RWMutex).Lock" || name == "(*sync.RWMutex).Unlock") && len(args) > 0 && fr.usesLockInv() {
+		for _, li := range e.specs.LockInvs {
+			pfx := "(" + sym("fa$"+shortPath(li.Type)+"$"+li.Mu) + " "
+			if !strings.HasPrefix(args[0].T, pfx) {
+				continue
+			}
+			base := strings.TrimSuffix(strings.TrimPrefix(args[0].T, pfx), ")")
+			li := li
+			mkEnv := func() *Env {
+				env := fr.envAt(fr.block, fr.idx, fr.cur.st, nil)
+				env.lookup = nil
+				if p := e.pkgTypes(li.Pkg); p != nil {
+					env.pkg = p
+				}
+				if t := e.globalType("*" + li.Type); t != nil {
+					env.names["this"] = Val{T: base, Ty: t}
+				}
+				return env
+			}
+			if strings.HasSuffix(name, ".Unlock") {
+				t, err := mkEnv().Goal(li.Expr)
+				if err != nil {
+					e.unsupported = append(e.unsupported, fmt.Sprintf("%s: lock invariant of %s: %v", fr.prefix, li.Type, err))
+				} else {
+					fr.obligeAt(fr.cur.reach, "unlock-inv", shortName(li.Type)+"."+li.Mu, t, li.Src)
+				}
+			} else {
+				lockInvAfter = func() {
+					// other threads may have run: everything the lock protects is arbitrary, but the invariant holds
+					for _, h := range li.Havocs {
+						if g, ok := e.specs.Ghosts[h]; ok {
+							e.havocComp(fr.cur.st, e.comp("ghost$"+g.Name, g.Sort))
+							continue
+						}
+						if cs, err := e.modTargetComps(h, &FuncSpec{Pkg: li.Pkg}, types.NewSignatureType(nil, nil, nil, nil, nil, false)); err == nil {
+							for _, c := range cs {
+								e.havocComp(fr.cur.st, c)
+							}
+						} else {
+							e.unsupported = append(e.unsupported, fmt.Sprintf("%s: lock invariant havocs %q: %v", fr.prefix, h, err))
+						}
+					}
+					env := mkEnv()
+					env.st = fr.cur.st
+					t, err := env.Bool(li.Expr)
+					if err == nil {
+						e.sc.emit("; lock invariant assumed at acquisition: " + li.Src)
+						fr.assumeHere(t)
+						e.noteFacts(env, li.Expr, fr.cur.reach)
+						e.assume("lock invariant of " + li.Type + "." + li.Mu + " holds whenever the lock is acquired (established by every critical section that is checked with it)")
+					}
+				}
+			}
+		}
+	}
+	defer func() { lockInvAfter() }()
 	if (name == "(*sync.Mutex).Lock" || name == "(*sync.Mutex).Unlock" || name == "(*sync.RWMutex).Lock" || name == "(*sync.RWMutex).Unlock") && len(args) > 0 {
 		for _, ls := range e.specs.LockSets {
 			pfx := "(" + sym("fa$"+shortPath(ls.Type)+"$"+ls.Mu) + " "
@@ -1051,6 +1110,12 @@ func (fr *Frame) applyContract(sp *FuncSpec, name string, sig *types.Signature, 
 			env.names[p.Name()] = args[ai+i]
 		}
 		env.names[fmt.Sprintf("arg%d", i)] = args[ai+i]
+	}
+	// integer- and string-valued arguments are candidate instantiation terms for quantified facts
+	for _, a := range args {
+		if a.Ty != nil && a.T != "" && (isStr(a.Ty) || isInt(a.Ty)) && len(a.T) < 200 {
+			e.noteIndexTerm(a.T)
+		}
 	}
 	pre := fr.cur.st.clone()
 	env.st = pre
@@ -1770,4 +1835,43 @@ func (fr *Frame) curInstrValue() (ssa.Value, bool) {
 	}
 	v, ok := fr.block.Instrs[fr.idx].(ssa.Value)
 	return v, ok
+}
+
+func (fr *Frame) usesLockInv() bool {
+	if fr.spec != nil && fr.spec.Attrs["lockinv"] {
+		return true
+	}
+	return fr.e.topSpec != nil && fr.e.topSpec.Attrs["lockinv"]
+}
+
+// rely conditions: assumed right after the matching call
+func (fr *Frame) assumeAtCall(calleeName string) {
+	if fr.spec == nil {
+		return
+	}
+	for _, c := range fr.spec.Assumes {
+		sel := strings.TrimPrefix(c.Key, "call ")
+		want := -1
+		if i := strings.LastIndex(sel, "#"); i > 0 {
+			fmt.Sscanf(sel[i+1:], "%d", &want)
+			sel = sel[:i]
+		}
+		if !calleeMatches(calleeName, sel) {
+			continue
+		}
+		if want > 0 && want != fr.sourceOrdinal(sel) {
+			continue
+		}
+		fr.matched[c] = true
+		env := fr.envAt(fr.block, fr.idx+1, fr.cur.st, nil)
+		t, err := env.Bool(c.Expr)
+		if err != nil {
+			fr.e.unsupported = append(fr.e.unsupported, fmt.Sprintf("%s: assume-at %s:%d: %v", fr.prefix, c.File, c.Line, err))
+			continue
+		}
+		fr.e.sc.emit("; rely condition assumed: " + c.Src)
+		fr.assumeHere(t)
+		fr.e.noteFacts(env, c.Expr, fr.cur.reach)
+		fr.e.assume("rely condition in " + fr.prefix + " [" + labelOr(c) + "]: " + c.Src)
+	}
 }
